@@ -131,15 +131,15 @@ include hS in
 theorem directFields_FieldsQ {td : TypeDef} {fields : List FieldDef} (htd : FromS S td)
     (h : directFields td = some fields) : FieldsQ S Q fields := by
   obtain ⟨n0, hn0⟩ := htd
-  have key : FieldsQ S Q (td.fields ++ [typenameField]) := by
-    intro fd hfd a ha
+  have key : (td.kind = .object ∨ td.kind = .interface) → FieldsQ S Q (td.fields ++ [typenameField]) := by
+    intro hk fd hfd a ha
     rcases List.mem_append.mp hfd with hfd | hfd
-    · exact hS.fieldArgs hn0 fd hfd a ha
+    · exact hS.fieldArgs hn0 hk fd hfd a ha
     · simp at hfd; subst hfd; simp [typenameField] at ha
   unfold directFields at h
   cases hk : td.kind <;> simp [hk] at h <;> subst h
-  · exact key
-  · exact key
+  · exact key (Or.inl hk)
+  · exact key (Or.inr hk)
   · intro fd hfd a ha; simp at hfd; subst hfd; simp [typenameField] at ha
 
 theorem unionMemberImplements_Q (iface : Name) (ms : List (Name × Pos))
@@ -185,7 +185,7 @@ theorem spreadApplicability_Q (root cond : TypeDef) (pos : Pos) (hr : FromS S ro
     · exact hnever
   unfold spreadApplicability
   simp only
-  cases root.kind <;> cases cond.kind <;> simp only
+  cases hrk : root.kind <;> cases hck : cond.kind <;> simp only
   all_goals first
     | exact allQ_nil
     | exact hite _
@@ -195,7 +195,7 @@ theorem spreadApplicability_Q (root cond : TypeDef) (pos : Pos) (hr : FromS S ro
        · exact hite _)
     | (rw [allQ_append]
        refine ⟨unionMemberImplements_Q _ _ ?_, hite _⟩
-       first | exact hS.members hc | exact hS.members hr)
+       first | exact hS.members hc hck | exact hS.members hr hrk)
 
 theorem checkSelection_field_eq (H : SpreadHandler) (seen vars root fields al name namePos args dirs sel) :
     checkSelection S H seen vars root fields (.field al name namePos args dirs sel) =
